@@ -1,6 +1,7 @@
 import JSL.Inv.Feasible
 import JSL.Inv.TimeStep
 import JSL.Inv.RoutePass
+import JSL.Inv.TravelPass
 import JSL.Lib.StepSpec
 import JSL.Inv.StartGe
 import JSL.Inv.Stamp
@@ -104,6 +105,8 @@ structure ResInv (orc : Oracle) (inst : Instance) (cfg : SMConfig) (s0 : State) 
   subsAgv : ∀ σ ∈ res.subStates, AgvInv σ
   full : AgvFull inst res.state
   subsFull : ∀ σ ∈ res.subStates, AgvFull inst σ
+  travel : TravelStart inst res.state
+  subsTravel : ∀ σ ∈ res.subStates, TravelStart inst σ
   /-- no recorded start lies before the start of the episode -/
   starts : ∀ j ∈ res.state.jobs, ∀ o ∈ j.ops, o.st ≠ .idle → ∀ a, o.start = some a → s0.time ≤ a
   /-- a successful result with every job delivered has its clock at the last end -/
@@ -121,7 +124,7 @@ structure ResInv (orc : Oracle) (inst : Instance) (cfg : SMConfig) (s0 : State) 
 theorem smStep_resInv {cfg : SMConfig} {s0 s : State} (hst : Start orc inst s0) (hF : OccursF orc inst cfg s0 s)
     {a : Action} (ha : Admissible a) (hadm : AdmOffer inst cfg s a) {fuel : Nat} {r r' : Rng}
     {res : SMResult} {mic : List State} (hstep : smStep orc inst cfg fuel s r a = .ok (res, r', mic)) :
-    ResInv orc inst cfg s0 res ∧ ∀ σ ∈ mic, StructInv inst σ ∧ SchedInv σ ∧ DurInv inst σ ∧ AgvFull inst σ := by
+    ResInv orc inst cfg s0 res ∧ ∀ σ ∈ mic, StructInv inst σ ∧ SchedInv σ ∧ DurInv inst σ ∧ AgvFull inst σ ∧ TravelStart inst σ := by
   have hC := hF.toC
   have hc := hadm.claim
   have h := hC.toA
@@ -129,9 +132,12 @@ theorem smStep_resInv {cfg : SMConfig} {s0 s : State} (hst : Start orc inst s0) 
   refine ⟨⟨hI, hS, fun σ hσ => (occursA_inv hst (OccursA.sub h ha hstep hσ)).2, final_dur hst h ha hstep,
       fun σ hσ => occursA_dur hst (OccursA.sub h ha hstep hσ), final_agv hst hC ha hc hstep,
       fun σ hσ => occursC_agv hst (OccursC.sub hC ha hc hstep hσ), final_full hst hF ha hadm hstep,
-      fun σ hσ => occursF_full hst (OccursF.sub hF ha hadm hstep hσ), final_start hst h ha hstep, ?_, ?_, ?_, ?_, ?_, ?_⟩,
+      fun σ hσ => occursF_full hst (OccursF.sub hF ha hadm hstep hσ), final_travel hst hF ha hadm hstep,
+      fun σ hσ => (occursF_travel hst (OccursF.sub hF ha hadm hstep hσ)).travel.toStart,
+      final_start hst h ha hstep, ?_, ?_, ?_, ?_, ?_, ?_⟩,
     fun σ hσ => ⟨(occursA_inv hst (OccursA.micro h ha hstep hσ)).2.1, (occursA_inv hst (OccursA.micro h ha hstep hσ)).2.2,
-      occursA_dur hst (OccursA.micro h ha hstep hσ), occursF_full hst (OccursF.micro hF ha hadm hstep hσ)⟩⟩
+      occursA_dur hst (OccursA.micro h ha hstep hσ), occursF_full hst (OccursF.micro hF ha hadm hstep hσ),
+      (occursF_travel hst (OccursF.micro hF ha hadm hstep hσ)).travel.toStart⟩⟩
   · intro hsuc hd
     rcases (smStep_spec hstep).2 with h1 | h1 | h1
     · rw [h1.1] at hsuc; cases hsuc
@@ -169,7 +175,7 @@ theorem admissible_noOp : Admissible noOpAction := ⟨fun _ h => by simp [noOpAc
 
 theorem envReset_inv {ec : EnvCfg} {s0 : State} (hst : Start orc inst s0) {r : Rng} {e : EnvState} {mic : List State}
     (h : envReset orc inst ec s0 r = .ok (e, mic)) :
-    ResInv orc inst ec.sm s0 e.res ∧ ∀ σ ∈ mic, StructInv inst σ ∧ SchedInv σ ∧ DurInv inst σ ∧ AgvFull inst σ := by
+    ResInv orc inst ec.sm s0 e.res ∧ ∀ σ ∈ mic, StructInv inst σ ∧ SchedInv σ ∧ DurInv inst σ ∧ AgvFull inst σ ∧ TravelStart inst σ := by
   unfold envReset mwReset at h
   obtain ⟨⟨res, mw, r', mic'⟩, h1, h⟩ := except_bind_eq_ok h
   obtain ⟨⟨res', r'', mic''⟩, h2, h1⟩ := except_bind_eq_ok h1
@@ -181,7 +187,7 @@ theorem envReset_inv {ec : EnvCfg} {s0 : State} (hst : Start orc inst s0) {r : R
 theorem envStep_inv {ec : EnvCfg} {st : RewardStatic} {s0 : State} (hst : Start orc inst s0) {e : EnvState}
     (hi : ResInv orc inst ec.sm s0 e.res) {a : AgentAct} {out : StepOut}
     (h : envStep orc inst ec st e a = .ok out) :
-    ResInv orc inst ec.sm s0 out.env.res ∧ ∀ σ ∈ out.micro, StructInv inst σ ∧ SchedInv σ ∧ DurInv inst σ ∧ AgvFull inst σ := by
+    ResInv orc inst ec.sm s0 out.env.res ∧ ∀ σ ∈ out.micro, StructInv inst σ ∧ SchedInv σ ∧ DurInv inst σ ∧ AgvFull inst σ ∧ TravelStart inst σ := by
   unfold envStep at h
   split at h
   · simp at h
@@ -189,13 +195,14 @@ theorem envStep_inv {ec : EnvCfg} {st : RewardStatic} {s0 : State} (hst : Start 
     simp only at h
     obtain ⟨⟨rew, cnt⟩, _, h⟩ := except_bind_eq_ok h
     simp at h; subst h
-    have key : ResInv orc inst ec.sm s0 res' ∧ ∀ σ ∈ mic, StructInv inst σ ∧ SchedInv σ ∧ DurInv inst σ ∧ AgvFull inst σ := by
+    have key : ResInv orc inst ec.sm s0 res' ∧ ∀ σ ∈ mic, StructInv inst σ ∧ SchedInv σ ∧ DurInv inst σ ∧ AgvFull inst σ ∧ TravelStart inst σ := by
       rcases mwStep_cases hm with ⟨o, o', rest, _, hp, e1, e2, e3, _, e5, e6, _⟩ | ⟨act, hsub, hk, hs⟩
       · simp only at e1 e2 e3 e5 e6
         have hl := hi.live (by rw [hp]; simp)
         refine ⟨⟨by rw [e1]; exact hi.struct, by rw [e1]; exact hi.sched, by rw [e2]; exact hi.subs,
           by rw [e1]; exact hi.dur, by rw [e2]; exact hi.subsDur, by rw [e1]; exact hi.agv, by rw [e2]; exact hi.subsAgv,
-          by rw [e1]; exact hi.full, by rw [e2]; exact hi.subsFull, by rw [e1]; exact hi.starts,
+          by rw [e1]; exact hi.full, by rw [e2]; exact hi.subsFull, by rw [e1]; exact hi.travel, by rw [e2]; exact hi.subsTravel,
+          by rw [e1]; exact hi.starts,
           (fun _ hd => by rw [e1, hi.notDone (by rw [hp]; simp)] at hd; cases hd),
           (fun _ => by rw [e1]; exact hi.notDone (by rw [hp]; simp)), ?_, ?_, ?_, ?_⟩, ?_⟩
         · intro _
@@ -269,8 +276,8 @@ theorem exposed_agv {ec : EnvCfg} {st : RewardStatic} {s0 σ : State} (hst : Sta
   cases h with
   | state he => exact (envReach_inv hst he).agv
   | sub he hσ => exact (envReach_inv hst he).subsAgv σ hσ
-  | resetMicro hr hσ => exact ((envReset_inv hst hr).2 σ hσ).2.2.2.agv
-  | micro he hs hσ => exact ((envStep_inv hst (envReach_inv hst he) hs).2 σ hσ).2.2.2.agv
+  | resetMicro hr hσ => exact ((envReset_inv hst hr).2 σ hσ).2.2.2.1.agv
+  | micro he hs hσ => exact ((envStep_inv hst (envReach_inv hst he) hs).2 σ hσ).2.2.2.1.agv
 
 /-- every exposed state satisfies the route invariant -/
 theorem exposed_route {ec : EnvCfg} {st : RewardStatic} {s0 σ : State} (hst : Start orc inst s0)
@@ -278,7 +285,16 @@ theorem exposed_route {ec : EnvCfg} {st : RewardStatic} {s0 σ : State} (hst : S
   cases h with
   | state he => exact (envReach_inv hst he).full.route
   | sub he hσ => exact ((envReach_inv hst he).subsFull σ hσ).route
-  | resetMicro hr hσ => exact ((envReset_inv hst hr).2 σ hσ).2.2.2.route
-  | micro he hs hσ => exact ((envStep_inv hst (envReach_inv hst he) hs).2 σ hσ).2.2.2.route
+  | resetMicro hr hσ => exact ((envReset_inv hst hr).2 σ hσ).2.2.2.1.route
+  | micro he hs hσ => exact ((envStep_inv hst (envReach_inv hst he) hs).2 σ hσ).2.2.2.1.route
+
+/-- every exposed state satisfies the start clause of the travel invariant -/
+theorem exposed_travel {ec : EnvCfg} {st : RewardStatic} {s0 σ : State} (hst : Start orc inst s0)
+    (h : Exposed orc inst ec st s0 σ) : TravelStart inst σ := by
+  cases h with
+  | state he => exact (envReach_inv hst he).travel
+  | sub he hσ => exact (envReach_inv hst he).subsTravel σ hσ
+  | resetMicro hr hσ => exact ((envReset_inv hst hr).2 σ hσ).2.2.2.2
+  | micro he hs hσ => exact ((envStep_inv hst (envReach_inv hst he) hs).2 σ hσ).2.2.2.2
 
 end JSL
